@@ -53,7 +53,7 @@ def main() -> int:
         demo_src = open(os.path.join(seed, "demo.py")).read()
         if args.orig_root:
             demo_src = demo_src.replace(args.orig_root.rstrip("/"), tmp)
-        demo_src = re.sub(r"/tmp/wt/c\d\d", tmp, demo_src)
+        demo_src = re.sub(r"/tmp/wt/[a-z0-9]+", tmp, demo_src)
         demo = os.path.join(tmp, "demo_seed.py")
         with open(demo, "w") as fh:
             fh.write(demo_src)
